@@ -653,6 +653,9 @@ func runScenario(sc *scenario, scratch string) (*vtrace.Trace, error) {
 		}
 	}
 	for _, d := range w.dtags {
+		if d.NoFact {
+			continue
+		}
 		rec.emit(vtrace.Event{"ev": "dtag", "t": d.Sym, "on": d.Of, "to": d.To, "fb": b2i(d.FB)})
 	}
 	snapEv := func(ev vtrace.Event) {
